@@ -906,6 +906,47 @@ func (w *wireCtx) ruleW2() {
 		return true
 	})
 	if !found {
+		// a hand-written rendering: the year handed to a strconv formatter comes out with as many
+		// digits as it has, unless the code pads it after comparing it with a power of ten
+		yearSel := func(e ast.Expr) bool {
+			hit := false
+			ast.Inspect(e, func(x ast.Node) bool {
+				if s, ok := x.(*ast.SelectorExpr); ok && s.Sel.Name == "Year" {
+					hit = true
+				}
+				return !hit
+			})
+			return hit
+		}
+		var plain *ast.CallExpr
+		padded := false
+		ast.Inspect(core.TreeBody(dpk, dfd), func(n ast.Node) bool {
+			switch x := n.(type) {
+			case *ast.CallExpr:
+				switch core.CalleeName(dpk.TypesInfo, x) {
+				case "strconv.AppendInt", "strconv.AppendUint":
+					if len(x.Args) >= 2 && yearSel(x.Args[1]) {
+						plain = x
+					}
+				case "strconv.Itoa", "strconv.FormatInt", "strconv.FormatUint":
+					if len(x.Args) >= 1 && yearSel(x.Args[0]) {
+						plain = x
+					}
+				}
+			case *ast.BinaryExpr:
+				if (x.Op == token.LSS || x.Op == token.LEQ || x.Op == token.GTR || x.Op == token.GEQ) && (yearSel(x.X) || yearSel(x.Y)) {
+					padded = true // the year is compared with something: a padding decision may follow
+				}
+			}
+			return true
+		})
+		if plain != nil && !padded {
+			found = true
+			o := r.Add("R-WIRE/W2", "date_j5t.Date.DateString | format", plain.Pos(), "date format verb")
+			o.Fail("the year is rendered by %s, which writes as many digits as the number has, and nothing compares it with a power of ten to pad it: years below 1000 come out shorter than the documented zero-padded YYYY", core.CalleeName(dpk.TypesInfo, plain))
+		}
+	}
+	if !found {
 		r.Fatal("Date.DateString: no fmt.Sprintf (unrecognised rendering idiom)")
 	}
 	r.Floor("R-WIRE/W2", 3, "base64, timestamp, date")
